@@ -7,6 +7,7 @@ mod p_kmer;
 mod p_minfile;
 mod p_min;
 mod p_py;
+mod p_cgrfile;
 mod p_cli;
 mod p_count;
 mod p_covfile;
@@ -177,7 +178,14 @@ fn main() {
         "C01" => p_kmer::run_c01(eff_tier, seed, &model, corpus),
         "C02" => p_kmer::run_c02(eff_tier, seed, &model, corpus),
         "C03" => p_kmer::run_c03(eff_tier, seed, &model, corpus),
-        "C04" => p_vec::run_c04(eff_tier, seed, &model, corpus),
+        "C04" => {
+            // per-record values, then the written rows through both writer paths of the file API
+            let mut rep = p_vec::run_c04(eff_tier, seed, &model, corpus);
+            let mut files = p_file::run_files("C04", if eff_tier == "thorough" { "quick" } else { eff_tier }, seed, &model, corpus_lines.clone(), &work);
+            files.property = "C04".into();
+            rep.merge(files);
+            rep
+        }
         "C08" => {
             let mut rep = Report::new("C08");
             let mut rng = util::Rng::new(seed);
@@ -189,12 +197,14 @@ fn main() {
             let mut rep = Report::new("C11");
             let mut rng = util::Rng::new(seed);
             p_vec::run_c11_one(eff_tier, &mut rng, &model, &mut rep, corpus);
+            p_cgrfile::run_cgr_files(false, eff_tier, &mut rng, &model, &mut rep, &corpus_lines, &work);
             rep
         }
         "C12" => {
             let mut rep = Report::new("C12");
             let mut rng = util::Rng::new(seed);
             p_vec::run_c12_one(eff_tier, &mut rng, &model, &mut rep, corpus);
+            p_cgrfile::run_cgr_files(true, eff_tier, &mut rng, &model, &mut rep, &corpus_lines, &work);
             rep
         }
         "C05" => p_file::run_files("C05", eff_tier, seed, &model, corpus_lines, &work),
